@@ -218,6 +218,12 @@ def t_candle_based(name, p):
                     continue
                 g = ops.land(g, ops.land(ops.compare('>=', x, 0), ops.compare('<=', x, 100)))
             h.prove(g, 'rsi.stays-in-0-100', {'period': p})
+            want = h.spec('rsi_wilder', close[:p + 4], p)
+            got = indic.as_vec(out).e
+            h.prove(len(got) == len(want), 'rsi.one-entry-per-value')
+            for j in range(min(len(got), len(want))):
+                h.prove(True if indic.same_term(got[j], want[j]) else ops.same_value(got[j], want[j]), 'rsi.equals-wilders-definition',
+                        {'period': p, 'index': j})
             return
         if name == 'willr':
             out = h.call(f'{I}.willr.willr', c, p, sequential=True)
@@ -298,7 +304,8 @@ def tasks(tier):
         for n in ('ema', 'wilders', 'dema', 'tema'):
             ts.append(Task(f'recurrence.{n}.p{p}', t_recurrence(n, p), extra=dict(bx), overrides=dict(ov), prove_timeout_ms=30000))
         for n in ('rsi', 'willr', 'atr', 'donchian', 'bollinger_bands'):
-            ts.append(Task(f'candle.{n}.p{p}', t_candle_based(n, p), extra=dict(bx), overrides=dict(ov), prove_timeout_ms=30000))
+            ts.append(Task(f'candle.{n}.p{p}', t_candle_based(n, p), extra=dict(bx, fork_solver=(n == 'rsi')), overrides=dict(ov),
+                           prove_timeout_ms=30000))
     for n in ('obv', 'typprice', 'medprice'):
         ts.append(Task(f'candle.{n}', t_candle_based(n, 0), extra=dict(bx), overrides=dict(ov)))
     return ts
